@@ -147,6 +147,23 @@ func genC18(g *G) {
 		wrap := []string{"{call .u data=\"%s\"/}", "{call .u}{param k value=\"%s\"/}{/call}", "{css %s, cls}"}[g.R.Intn(3)]
 		addFile("{namespace a}\n{template .t}\n"+strings.Replace(wrap, "%s", bad, 1)+"\n{/template}\n{template .u}\nx\n{/template}\n", "quoted-expr-error")
 	}
+	// blank / degenerate quoted attribute expressions (an error raised before the nested scanner was read at all)
+	for _, blank := range []string{"", " ", "  ", "\t", ",", "(", ")", "'", "$", "1", "$x"} {
+		for _, wrap := range []string{"{call .u data=\"%s\"/}", "{call .u data=\"%s\"}{/call}", "{call .u}{param k value=\"%s\"/}{/call}", "{call .u}{param key=\"k\" value=\"%s\"/}{/call}", "{css %s, cls}", "{css %s,cls}"} {
+			addFile("{namespace a}\n{template .t}\n"+strings.Replace(wrap, "%s", blank, 1)+"\n{/template}\n{template .u}\nx\n{/template}\n", "quoted-expr-blank")
+		}
+	}
+	// soydoc params in every degenerate shape (a lexer error inside a helper that cannot stop the state machine)
+	for _, p := range []string{"@param", "@param ", "@param  ", "@param?", "@param? ", "@param?  ", "@param\t", "@param x", "@param? x y", "@param 1x", "@param $x", "@param x\n * @param", "@param ?", "@param?x", "@paramx", "@param x @param y", "@param\r", "@param é"} {
+		for _, shape := range []string{"/** %s */", "/**\n * %s\n */", "/** %s\n*/", "/**%s*/", "/** %s", "/**\n * %s \n * more\n */"} {
+			addFile("{namespace a}\n"+strings.Replace(shape, "%s", p, 1)+"\n{template .t}\nx\n{/template}\n", "soydoc-param-shape")
+		}
+	}
+	// a line comment that runs to the end of the input (no final newline), alone and after an error
+	for _, tail := range []string{"// end", " // end", "x // end", "{/template}\n// end", "{$x +} // end", "{if} // end", "// a\n// b"} {
+		addFile("{namespace a}\n{template .t}\nhello\n"+tail, "line-comment-at-eof")
+		addFile("{namespace a}\n{template .t}\nhello\n{/template}\n"+tail, "line-comment-at-eof")
+	}
 	for _, h := range []string{"1 @param x: int", "1 2 @param? y", "$a {literal}x{/literal}", "1 /* c */ 2 3", "'a' \n // c\n 'b' 'c'"} {
 		addExpr(h, "hand")
 	}
